@@ -65,6 +65,29 @@ chk("C16", "fault_enumeration",
     T_NOTE + " Stack fullness is injected by raising the size cell of the real StackAllocator from a user_pre action.",
     "deterministic simulation: enumerated fault points (stack cells x steps, capacities) with recovery oracle", "§5 C16", "T16")
 
+G_NOTE = ("Trusted base: RefGeo (own quadric evaluation, RPN evaluation, transform chain, root finding in long double), the geometry "
+          "generator's validity envelope (volumes of a unit partition space by construction), gcc 12 + ASan/UBSan. Near-surface, "
+          "near-coincident and grazing configurations are skipped and counted, not judged. Involute surfaces are not modelled.")
+chk("C03", "exploration",
+    "1-8 clients (slots of one OrangeStateData) execute seeded, scheduler-interleaved operation sequences permitted by the documented "
+    "call order (init, find_next_step[(max)], move_internal, move_to_boundary, cross_boundary, set_dir incl. on boundaries and reversing, "
+    "move_internal(pos), copy-initialisation) on bundled and generated geometries; after every operation the reported volume, distance, "
+    "boundary flag and post-crossing volume are compared with an independent reference locator built from the same OrangeInput; other "
+    "slots must be untouched.", G_NOTE,
+    "deterministic simulation: stateful navigator vs executable reference model, seeded op interleaving", "§5 C03", "G")
+chk("C11", "exploration",
+    "Same clients and geometries; whenever a client is off-boundary the reported safety s is checked: s >= 0, points at distance "
+    "s(1-1e-6) in 24 seeded directions locate (reference) to the same volume path, and the navigator's own find_next_step in 8 of "
+    "those directions is >= s. Every nesting level and both tracker types occur.", G_NOTE,
+    "deterministic simulation: invariant over seeded navigation histories vs reference locator", "§5 C11", "G")
+chk("C19", "exploration",
+    "Weak fit, stated in DESIGN: the simulator owns the stream layer (a streambuf that accepts/exposes 1..k bytes per call, "
+    "optional comma-decimal global locale) and the differential replay. Each geometry input (bundled file or generated) is written "
+    "and read back through it; oracle: field-by-field structural equality (surfaces bitwise, faces, logic, flags, zorder, bboxes, "
+    "labels, daughters and transforms, array grids, tolerances) and bit-identical navigation histories of the same client plans on "
+    "OrangeParams(A) and OrangeParams(B).", G_NOTE + " Geometries come from bundled files and the direct generator; the construction API source is added with C09.",
+    "deterministic simulation: short-read/short-write stream faults + differential replay of navigation", "§5 C19", "G")
+
 def main():
     checks = []
     for pid in sorted(CHECKS):
